@@ -173,6 +173,12 @@ TablesConsistent == S.overflow \/
   /\ \A p \in Peers : S.peer[p].conn # 0 => InSeq(S.peer[p].conn, S.connections)
   /\ \A c \in S.halfReady : InSeq(c, S.connections)
 
+\* whenever nothing is in progress (no connection, no held request, no sender waiting, queues empty) the connection tables,
+\* the per-transaction tables of inbound requests and the sockets are all released - after every thread step
+IdleClean == S.overflow \/ ~Idle(S) \/
+  LET r == Retained(S) IN
+  r.connections = 0 /\ r.peerSockets = 0 /\ r.socketPeers = 0 /\ r.halfReady = 0 /\ r.peerWait = 0 /\ r.originWait = 0 /\ r.openSockets = 0
+
 View == <<[S EXCEPT !.out = <<>>], M, n>>
 \* enumeration of every history of a small instance (spec -> code, exhaustive): histories are states, monitors idle
 EnumNext == /\ n < Depth
